@@ -56,8 +56,13 @@ def decomposed(draw, kind, tier='quick', max_subs=3):
     lits = sorted(set(s[1] for s in F.subterms(f) if s[0] == 'const'))
     if lits and draw(st.integers(0, 2)) == 0:
         consts = [lits[draw(st.integers(0, len(lits) - 1))]]
+    # a bound value that is delivered through a declared constant ("eventually[0:T s] ...")
+    bvals = sorted(set(b for st_ in F.subterms(f) if st_[0] in ('tun', 'tbin') for b in (st_[2], st_[3])))
+    bound_const = None
+    if bvals and draw(st.integers(0, 2)) == 0:
+        bound_const = [draw(st.sampled_from(bvals)), draw(st.sampled_from(['', 's']))]
     case = {
-        'kind': kind, 'formula': f, 'vars': vs, 'subs': subs, 'consts': consts,
+        'kind': kind, 'formula': f, 'vars': vs, 'subs': subs, 'consts': consts, 'bound_const': bound_const,
         'delivery': draw(st.sampled_from(['add_sub_spec', 'assertions'])),
         'declare_names': draw(st.booleans()),
     }
@@ -106,11 +111,25 @@ def modular_texts(case, printer):
     return bodies, printer(with_consts(main)), const_decl
 
 
-def printer_for(kind):
-    if kind.startswith('ct'):
-        bp = F.make_scaled_bound_printer(Q)
-        return lambda g: F.show(g, bp)
-    return F.show
+def printer_for(kind, bound_const=None):
+    """Printer of formulas; with bound_const = [k, unit] every bound equal to k grid steps is written as the constant kb."""
+    scale = Q if kind.startswith('ct') else Fraction(1)
+
+    def bp(a, b):
+        def one(k):
+            if bound_const and k == bound_const[0]:
+                return 'kb' + (' ' + bound_const[1] if bound_const[1] else '')
+            return F.fmt_frac(k * scale)
+        return '[%s,%s]' % (one(a), one(b))
+    return lambda g: F.show(g, bp)
+
+
+def bound_const_decl(case):
+    bc = case.get('bound_const')
+    if not bc:
+        return []
+    scale = Q if case['kind'].startswith('ct') else Fraction(1)
+    return [('kb', 'float', F.fmt_frac(bc[0] * scale))]
 
 
 def build_modular(case, inline=False):
@@ -122,7 +141,9 @@ def build_modular(case, inline=False):
     base_kind = {'dt_off': 'dt_off', 'dt_on': 'dt_on', 'dt_on_past': 'dt_on', 'ct_off': 'ct_off', 'ct_on': 'ct_on'}[kind]
     if inline:
         return build(base_kind, 'out = ' + pr(f), used, pastify=(kind == 'dt_on_past'))
+    pr = printer_for(kind, case.get('bound_const'))
     bodies, main, const_decl = modular_texts(case, pr)
+    const_decl = list(const_decl) + bound_const_decl(case)
     declared = list(used)
     if case['declare_names']:
         declared += [n for n, _ in bodies]
@@ -189,6 +210,10 @@ def mod_candidates(case):
     if case['consts']:
         c = dict(case)
         c['consts'] = []
+        yield c
+    if case.get('bound_const'):
+        c = dict(case)
+        c['bound_const'] = None
         yield c
     f = from_json(case['formula'])
     subs = [from_json(s) for s in case['subs']]
